@@ -87,6 +87,10 @@ func New(converterName, executablePath string) *Converter {
 	return &converter
 }
 
+func (converter *Converter) ExecutablePath() string {
+	return converter.executablePath
+}
+
 func (converter *Converter) Name() string {
 	return converter.name
 }
